@@ -11,6 +11,9 @@
   oracle-on-copies               the oracles update tables in place (`belief += ...`): every such site acts on objects allocated by the call or on
                                  the oracle's own messages, never on (an element of) the caller's potentials - those are read again by the
                                  next call and by the caller (E2 origin analysis)
+  sweep-termination              the message sweeps of loopy / generalized BP may stop before `iters` only at an EXACT fixed point of the messages
+                                 (`np.array_equal`): a tolerance test (`allclose`, a norm below a threshold) stops with an unsummed tail, and the
+                                 marginals of a long, strongly coupled tree are then not the exact ones
   call-local-cache               a memo table on the oracle object whose entries depend on the call's arguments is emptied by that call
   gbp-message-sets               the three message sets of the minimal region-graph propagation are instances of ONE recipe - In(x) =
                                  edges entering the sub-graph below x from outside: {(s, x) : s parent of x} + {(q, d) : d descendant of x,
@@ -74,10 +77,67 @@ def run(ctx):
                'must return self.clique_marginals(<messages>, <messages>, %s); returns `%s`' % (pot, U(v) if v is not None else None))
     check_identity_compares(ctx)
     check_on_copies(ctx)
+    check_sweep_termination(ctx)
     ctx.floor('returned-table constructions', n_ret, 2)
     check_gbp_sets(ctx)
     check_call_local_caches(ctx, [gbp, lbp, cm, repo.nfunc(RG, 'RegionGraph.hazan_peng_shashua')])
     ctx.floor('exp sites', sum(1 for o in ctx.obligations if o.rule == 'exp-normalised'), 2)
+
+
+def check_sweep_termination(ctx):
+    n = 0
+    for rel, q in ((FG, 'FactorGraph.loopy_belief_propagation'), (RG, 'RegionGraph.generalized_belief_propagation')):
+        fi = ctx.repo.nfunc(rel, q)
+        ctx.analysed(fi)
+        sweeps = [s_ for s_ in fi.body if isinstance(s_, (ast.For, ast.While))]
+        sweeps = [s_ for s_ in sweeps if any(isinstance(x, (ast.For, ast.While)) for b in s_.body for x in ast.walk(b))]
+        if not sweeps:
+            raise AnalysisError('%s: sweep loop not found' % q)
+        n += 1
+        for lp in sweeps:
+            exits = []
+            for x in ast.walk(lp):
+                if isinstance(x, (ast.Break, ast.Return)):
+                    # only exits of THIS loop (a break inside an inner loop leaves the inner one)
+                    par, inner = getattr(x, '_parent', None), False
+                    while par is not None and par is not lp:
+                        if isinstance(par, (ast.For, ast.While)) and isinstance(x, ast.Break):
+                            inner = True
+                        par = getattr(par, '_parent', None)
+                    if not inner:
+                        exits.append(x)
+            for x in exits:
+                guard = getattr(x, '_parent', None)
+                if not isinstance(guard, ast.If):
+                    raise AnalysisError('%s: unconditional exit from the sweep loop' % q)
+                # everything the guard depends on, through the assignments inside the loop
+                seen, todo, exprs = set(), [guard.test], []
+                while todo:
+                    e = todo.pop()
+                    exprs.append(e)
+                    for nm in {y.id for y in ast.walk(e) if isinstance(y, ast.Name)}:
+                        if nm in seen:
+                            continue
+                        seen.add(nm)
+                        for st in ast.walk(lp):
+                            if isinstance(st, ast.Assign) and any(isinstance(t, ast.Name) and t.id == nm for t in st.targets):
+                                todo.append(st.value)
+                calls = {U(c.func).split('.')[-1] for e in exprs for c in ast.walk(e) if isinstance(c, ast.Call)}
+                tol = calls & {'allclose', 'isclose', 'norm', 'abs', 'fabs', 'max', 'linalg'}
+                cmp_tol = any(isinstance(c, ast.Compare) and any(isinstance(o, (ast.Lt, ast.LtE, ast.Gt, ast.GtE)) for o in c.ops) for e in exprs for c in ast.walk(e))
+                exact = calls & {'array_equal', 'array_equiv'}
+                if tol or (cmp_tol and not exact):
+                    ctx.ob('sweep-termination', fi, guard, False,
+                           'the sweeps stop when `%s` holds, a TOLERANCE test (%s): the increments of a long chain decay geometrically, so what is cut '
+                           'off is an unsummed tail and the marginals are no longer exact on trees' % (U(guard.test)[:60], ', '.join(sorted(tol)) or 'threshold'),
+                           construct='early exit of the sweeps in ' + fi.name)
+                elif exact:
+                    ctx.ob('sweep-termination', fi, guard, True,
+                           'the sweeps stop only when a sweep reproduces the messages exactly (`%s`)' % ', '.join(sorted(exact)),
+                           construct='early exit of the sweeps in ' + fi.name)
+                else:
+                    raise AnalysisError('%s: early exit `%s` of the sweep loop is neither an exact fixed-point test nor a tolerance test' % (q, U(guard.test)[:60]))
+    ctx.floor('sweep loops examined', n, 2)
 
 
 def check_on_copies(ctx):
